@@ -69,6 +69,11 @@ class Acc:
                 self.viol[sig]["alts"] = list(v.get("alts", []))
             else:
                 mine["count"] += v["count"]
+                # contexts in which the signature was seen (fresh-interpreter shards first: their
+                # replay re-creates the process exactly)
+                cs = mine.get("ctxs", []) + [c for c in v.get("ctxs", []) if c not in mine.get("ctxs", [])]
+                cs.sort(key=lambda c: 0 if c.get("fresh") else 1)
+                mine["ctxs"] = cs[:6]
                 mine["alts"] = sorted(mine.get("alts", []) + list(v.get("alts", [])),
                                       key=lambda x: x[0])[:8]
         self.notes += other.notes
@@ -94,7 +99,7 @@ def _call(args):
     ctx = {"fn_mod": fn_mod, "fn_name": fn_name, "shard": shard, "nshards": nshards, "tier": tier,
            "seed": seed, "extra": list(extra), "warm": warm}
     for v in acc.viol.values():
-        v["ctx"] = ctx
+        v["ctxs"] = [ctx]
         if warm:
             for c in [v["case"]] + [c for _, c in v.get("alts", [])]:
                 if isinstance(c, dict):
@@ -133,21 +138,60 @@ def parallel(fn, tier, seed, nshards=None, extra=(), warm_pass=False):
     return total
 
 
+_FRESH_CODE = ("import sys, json, pickle, base64; from mc import runner; ctx = json.loads(sys.stdin.read()); "
+               "a = runner._call((ctx['fn_mod'], ctx['fn_name'], ctx['shard'], ctx['nshards'], ctx['tier'], "
+               "ctx['seed'], tuple(ctx['extra']), ctx['warm'])); "
+               "print('@@RESULT@@' + base64.b64encode(pickle.dumps(a)).decode())")
+
+
+def fresh_call(ctx, timeout=3600):
+    """Runs one shard in a brand-new interpreter (always bootstrapped the same way, so that even
+    memory-address reuse patterns repeat) and returns its Acc, or a string on failure."""
+    import base64
+    import pickle
+    import subprocess
+    ctx = {k: ctx[k] for k in ("fn_mod", "fn_name", "shard", "nshards", "tier", "seed", "extra", "warm")}
+    fresh = True
+    p = subprocess.run([sys.executable, "-W", "ignore", "-c", _FRESH_CODE],
+                       input=json.dumps(ctx, sort_keys=True),
+                       capture_output=True, text=True, cwd=env.VERIF, timeout=timeout)
+    if p.returncode != 0 or "@@RESULT@@" not in p.stdout:
+        return "fresh interpreter failed: " + (p.stderr or p.stdout)[-600:]
+    acc = pickle.loads(base64.b64decode(p.stdout.split("@@RESULT@@")[-1]))
+    for v in acc.viol.values():
+        for c in v.get("ctxs", []):
+            c["fresh"] = fresh
+    return acc
+
+
+def parallel_fresh(fn, tier, seed, nshards=None, extra=()):
+    """Like parallel(), but every shard runs in its own brand-new interpreter instead of a forked
+    pool worker: used by passes whose findings may depend on the allocation history of the
+    process (address reuse), so that context_replay re-creates exactly the same process."""
+    from multiprocessing.pool import ThreadPool
+    nshards = nshards or NPROC
+    ctxs = [{"fn_mod": fn.__module__, "fn_name": fn.__name__, "shard": s, "nshards": nshards,
+             "tier": tier, "seed": seed, "extra": list(extra), "warm": False} for s in range(nshards)]
+    total = Acc()
+    with ThreadPool(NPROC) as tp:
+        for acc in tp.imap_unordered(fresh_call, ctxs):
+            if isinstance(acc, str):
+                a = Acc()
+                a.notes.append("WORKER-CRASH " + acc)
+                acc = a
+            total.merge(acc)
+    return total
+
+
 def context_replay(ctx, sig, timeout=1800):
     """Re-runs one shard of a check in a brand-new interpreter and reports whether the violation
     signature shows up again.  This is the replay of last resort for violations that depend on
     what the same process executed earlier (hidden state): the history is 'the cases of shard s,
     in order', which is deterministic."""
-    import subprocess
-    code = ("import sys, json; from mc import runner; ctx = json.loads(sys.stdin.read()); "
-            "a = runner._call((ctx['fn_mod'], ctx['fn_name'], ctx['shard'], ctx['nshards'], ctx['tier'], "
-            "ctx['seed'], tuple(ctx['extra']), ctx['warm'])); "
-            "print('@@RESULT@@' + json.dumps(sorted(a.viol)))")
-    p = subprocess.run([sys.executable, "-W", "ignore", "-c", code], input=json.dumps(ctx),
-                       capture_output=True, text=True, cwd=env.VERIF, timeout=timeout)
-    if p.returncode != 0 or "@@RESULT@@" not in p.stdout:
-        return "context replay failed: " + (p.stderr or p.stdout)[-400:]
-    return sig if sig in json.loads(p.stdout.split("@@RESULT@@")[-1]) else []
+    a = fresh_call(ctx, timeout)
+    if isinstance(a, str):
+        return a
+    return sig if sig in a.viol else []
 
 
 def replay_in_fresh_interpreter(module_name, case, timeout=900):
@@ -242,15 +286,16 @@ def finish(prop, tier, seed, t0, acc, coverage, assumptions, module=None):
                     v["case"] = cand
                     ok = True
                     break
-            if not ok and v.get("ctx"):
+            for cx in ([] if ok else v.get("ctxs", [])):
                 # depends on what the worker executed before it: replay the worker's history
-                again = context_replay(v["ctx"], v["sig"])
+                again = context_replay(cx, v["sig"])
                 if _reproduced(again, v["sig"]):
-                    v["case"] = {"mode": "shard-context", "ctx": v["ctx"], "last_case": v["case"],
+                    v["case"] = {"mode": "shard-context", "ctx": cx, "last_case": v["case"],
                                  "note": "reproduces only after the earlier cases of this shard "
                                          "(hidden state); replay re-runs the shard in a fresh "
                                          "interpreter"}
                     ok = True
+                    break
             if not ok:
                 print(f"HARNESS-ERROR property={prop} violation did not reproduce on replay: "
                       f"{v['sig']} -> {again}")
@@ -293,7 +338,7 @@ def finish(prop, tier, seed, t0, acc, coverage, assumptions, module=None):
           f"transitions={cov.get('transitions')} traces={cov.get('traces_validated_against_impl')} "
           f"outcomes={len(acc.outcomes)} caps={dict(acc.caps)} known={len(old)} new={len(new)} "
           f"wall={evidence['wall_s']}s")
-    if crashes or harness_error:
+    if crashes or (harness_error and not shown):
         print(f"HARNESS-ERROR property={prop}: worker crash or non-reproducible violation")
         return 3
     return 1 if new else 0
